@@ -16,7 +16,7 @@ Fixpoint write_hunk (lines : list line) (ln : nat) (b : list pline) : list line 
   end.
 
 (* ---- write_define_hunk ---- *)
-Inductive dstate := DOutside | DIfndef | DIfdef | DElse.
+Inductive dstate := DOutside | DIfndef | DIfdef | DElseNew (* #else of #ifndef: lines of the new file *) | DElseOld (* #else of #ifdef *).
 Definition dstate_outside (d : dstate) := match d with DOutside => true | _ => false end.
 
 Definition nl_or_lf (n : newline) : newline := match n with NoNL => LF | x => x end.
@@ -40,26 +40,37 @@ Fixpoint write_define_loop (lines : list line) (define : list N) (b : list pline
               let '(o, e, st', ln') := x in Ok (pre ++ l :: o, e, st', ln')
           end
       | Add =>
-          let '(pre, st1) :=
+          (* an added line after the #else of an #ifdef needs a new conditional *)
+          let '(pre0, st0, ln0) :=
             match st with
-            | DOutside => (write_directive last_nl (bs "#ifdef ") define (nl (pl p)), DIfdef)
-            | DIfndef => (write_directive last_nl (bs "#else") [] (nl (pl p)), DElse)
+            | DElseOld => (write_directive last_nl (bs "#endif") [] (nl (pl p)), DOutside, LF)
+            | s => ([], s, last_nl)
+            end in
+          let '(pre, st1) :=
+            match st0 with
+            | DOutside => (write_directive ln0 (bs "#ifdef ") define (nl (pl p)), DIfdef)
+            | DIfndef => (write_directive ln0 (bs "#else") [] (nl (pl p)), DElseNew)
             | s => ([], s)
             end in
           do x <- write_define_loop lines define r ln st1 (nl (pl p));
-          let '(o, e, st', ln') := x in Ok (pre ++ pl p :: o, e, st', ln')
+          let '(o, e, st', ln') := x in Ok (pre0 ++ pre ++ pl p :: o, e, st', ln')
       | Del =>
           match nth_opt lines ln with
           | None => Throw EOutOfRange
           | Some l =>
-              let '(pre, st1) :=
+              let '(pre0, st0, ln0) :=
                 match st with
-                | DOutside => (write_directive last_nl (bs "#ifndef ") define (nl l), DIfndef)
-                | DIfdef => (write_directive last_nl (bs "#else") [] (nl l), DElse)
+                | DElseNew => (write_directive last_nl (bs "#endif") [] (nl l), DOutside, LF)
+                | s => ([], s, last_nl)
+                end in
+              let '(pre, st1) :=
+                match st0 with
+                | DOutside => (write_directive ln0 (bs "#ifndef ") define (nl l), DIfndef)
+                | DIfdef => (write_directive ln0 (bs "#else") [] (nl l), DElseOld)
                 | s => ([], s)
                 end in
               do x <- write_define_loop lines define r (S ln) st1 (nl l);
-              let '(o, e, st', ln') := x in Ok (pre ++ l :: o, e, st', ln')
+              let '(o, e, st', ln') := x in Ok (pre0 ++ pre ++ l :: o, e, st', ln')
           end
       end
   end.
